@@ -606,7 +606,7 @@ def main(chk: core.Check, replay: typing.Optional[str] = None) -> int:
         chk.notes.append('probe %s: %s' % (FLOAT_RANGE, probe_detail))
         if float_quirk and chk.is_known(FLOAT_RANGE):
             chk.report_known(FLOAT_RANGE, probe_detail[:160])
-    rounds = 1 if chk.tier == 'quick' else 3
+    rounds = 1 if chk.tier == 'quick' else 6
     n_types = 14 if chk.tier == 'quick' else 34
     stats: typing.Dict[str, typing.Any] = {'types': 0, 'builds': [], 'meta_values_compared': 0, 'model_values_vs_pydsdl': 0, 'ser_requests': 0,
                                            'too_small_expected': 0, 'ok_expected': 0, 'tight_max_values': 0, 'strata': {},
